@@ -248,11 +248,12 @@ def run(ctx, res):
     exempt = sum(o["exempt_nonmonotone"] for o in outs)
     nviol = sum(o["nviol"] for o in outs)
     ctx.log("edges %d strict %d exempt-nonmonotone %d violations %d" % (edges, strict, exempt, nviol))
+    cands = []
     for o in outs:
         for (ti, slot, i, j, x, y, m, lo_v, hi_v) in o["viol"][:1]:
             tab = data[ti][0]
             lo_asg, hi_asg = tab.describe(i), tab.describe(j)
-            res.add_violation({
+            cands.append({
                 "what": "%s slot %d: %s %s->%s (more severe) lowers the score %.1f -> %.1f at %s" % (
                     tab.name, slot, m, lo_v, hi_v, x / 10.0, y / 10.0, _spell(tab, lo_asg)),
                 "kind": "edge", "family": tab.family, "slot": slot,
@@ -260,6 +261,18 @@ def run(ctx, res):
                 "input": [_spell(tab, lo_asg), _spell(tab, hi_asg)],
                 "signature": {"kind": "edge", "family": tab.family},
             })
+    # an edge read off the tables must also be non-monotone when its two vectors are scored alone
+    # in a fresh process; otherwise the table entry was history-dependent (that is C01-C03 / C19's
+    # business, not a monotonicity defect) and the edge is only counted
+    cands = cands[:40]
+    fresh = core.pool_map(_recheck, cands, fresh=True) if cands else []
+    unstable = 0
+    for c, ok in zip(cands, fresh):
+        if ok:
+            res.add_violation(c)
+        else:
+            unstable += 1
+    res.coverage["edges_not_reproducible_in_a_fresh_process"] = unstable
     sweep.fill(res, ctx, tot, blocks,
                "nodes = effective metric assignments scored by the real classes; transitions = "
                "single-metric one-step severity increases between two visited nodes, all of them "
@@ -275,6 +288,13 @@ def run(ctx, res):
     res.coverage["bound"] = ("all edges of the complete score tables (v4: 15.1M nodes)"
                              if ctx.thorough else
                              "all edges between nodes of the quick (<=1 free group) spaces")
+
+
+def _recheck(case):
+    try:
+        return replay(case)[0]
+    except Exception:  # noqa
+        return True
 
 
 def _spell(tab, asg):
